@@ -177,6 +177,26 @@ def gen_interp2d(ctx):
                 x.append(rng.uniform(xf[0] - 1, xf[-1] + 1))
         do_interp2d(ctx, x, xf, f, exact, 'dyadic' if exact else 'random')
     ctx.flush()
+    # LARGE problems (queries x nodes beyond 10^5, 10^6): clamping outside the table, nodes and midpoints behave as for small tables
+    for nq, nn in ([(1000, 300)] if ctx.tier == 'quick' else [(1000, 300), (4000, 300), (300, 4000), (120, 1000)]):
+        xf = [0.0]
+        for _ in range(nn - 1):
+            xf.append(xf[-1] + rng.choice([0.25, 0.5, 1.0]))
+        f = [[rng.randint(-64, 64) / 8 for _ in range(2)] for _ in range(nn)]
+        x = []
+        for _ in range(nq):
+            c = rng.random()
+            if c < 0.1:
+                x.append(xf[0] - rng.choice([0.125, 1, 50]))
+            elif c < 0.2:
+                x.append(xf[-1] + rng.choice([0.125, 1, 50]))
+            elif c < 0.5:
+                x.append(rng.choice(xf))
+            else:
+                i = rng.randrange(nn - 1)
+                x.append(xf[i] + (xf[i + 1] - xf[i]) * rng.randint(0, 16) / 16)
+        do_interp2d(ctx, x, xf, f, True, 'large')
+    ctx.flush()
 
 
 # ----------------------------------------------------------------------------------------------------------------------
@@ -642,6 +662,15 @@ def gen_spectra(ctx):
             if ra[0] == 'ok':
                 ok = all(float(a) == float(ds.c_h_factor(float(t), cls)) for a, t in zip(ra[1], arr)) and len(ra[1]) == len(arr)
                 ctx.oracle('C20.f c_h_factor of an array == element-wise scalar calls', ok, {'period': arr, 'site_class': cls})
+        # whole-number periods held as integers (int ndarray, list of ints, scalar int): the same values as for the floats
+        iarr = [rng.choice([0, 1, 2, 3, 4, 5]) for _ in range(12)]
+        for label, cont in (('int64', np.array(iarr, dtype=np.int64)), ('int32', np.array(iarr, dtype=np.int32)), ('list-int', list(iarr))):
+            ra = call_impl(ds.c_h_factor, cont, cls)
+            ctx.hist('c_h_factor/integer periods/' + label)
+            ok = ra[0] == 'ok' and len(ra[1]) == len(iarr) and all(float(a) == float(ds.c_h_factor(float(t), cls)) for a, t in zip(ra[1], iarr))
+            ctx.oracle('C20.f c_h_factor of integer-typed periods == the values for the same periods as floats', ok, {'period': iarr, 'container': label, 'site_class': cls},
+                       detail=ra if ra[0] != 'ok' else {'got': [float(x) for x in ra[1]], 'want': [float(ds.c_h_factor(float(t), cls)) for t in iarr]})
+        # (a scalar Python int is rejected with TypeError by the pinned code -- `len(period)` -- a loud restriction of the domain, not demanded)
         # negative periods and unknown classes raise ValueError
         for T in (-1e-9, -0.5, -3.0):
             rc = quiet(ds.c_h_factor, T, cls)
